@@ -175,6 +175,10 @@ theorem sei_scratch_request_bounded (name : String) (fin : IoKind) (bs : List UI
 theorem sei_message_within_input (r r' : Sei.Reader) (ty : Nat) (pl : List UInt8)
     (h : Sei.next r = (r', .ok (some (ty, pl)))) : pl.length + r'.src.bytes.length + 2 ≤ r.src.bytes.length :=
   Alloc.next_payload_le r r' ty pl h
+/-- the NAL accumulator's buffer never holds more than the bytes delivered to it, whatever the handler answers -/
+theorem accumulator_buffer_bounded (a : Accum.Acc) (steps : List Accum.Step) (tr : List Accum.Invocation) :
+    (Accum.run a steps tr).1.buf.length ≤ a.buf.length + (steps.map fun s => s.bufs.flatten.length).sum :=
+  Alloc.acc_buffer_le_input a steps tr
 /-- parameter-set tables: never more than `B` slots after any insertions under checked ids (`B` = 32 / 256) -/
 theorem param_set_table_bounded {α} (B : Nat) (ws : List (Nat × α)) (m : Ctx.PMap α) (hm : m.length ≤ B)
     (h : ∀ w ∈ ws, w.1 < B) : (ws.foldl (fun m w => Ctx.put m w.1 w.2) m).length ≤ B := Alloc.table_length_le B ws m hm h
